@@ -547,6 +547,8 @@ func run(cmd string, args []string) int {
 		return cmdAttacks(args)
 	case "negotiate":
 		return cmdNegotiate(args)
+	case "fragcheck":
+		return cmdFragCheck(args)
 	}
 	fmt.Fprintln(os.Stderr, "unknown command", cmd)
 	return 2
